@@ -138,9 +138,9 @@ def gen_case(rng, kind):
 # ----------------------------------------------------------------------------------------------
 # the FORM of the arguments (dtype, memory layout, container) - the content, hence the Gallina literal and the
 # oracle, is untouched.  Choices are stored in the case (replay / shrink rebuild exactly the same arrays).
-# Not generated because the UNCHANGED code does not take them (see notes/xstats.md 'FORM FINDINGS'): integer-dtype
-# weights for covariance; interacting_shape as a list or as NumPy UNSIGNED scalars; weights of shape (N, 1); an
-# (N, 1) fact for min / max (one-column facts only); datetime64 units other than [s] (the sentinel of the
+# Integer-dtype weights for covariance and interacting_shape as NumPy UNSIGNED scalars are generated since the repairs
+# F26 / F25.  Not generated because the code does not take them (outside the quantifier): interacting_shape as a
+# list; weights of shape (N, 1); an (N, 1) fact for min / max (one-column facts only); datetime64 units other than [s] (the sentinel of the
 # (values, validity) report is unit-relative).
 # ----------------------------------------------------------------------------------------------
 
@@ -165,7 +165,7 @@ def choose_forms(rng, case):
     allvalid = len(valid_vals) == N * ncol
     weighted = case["wkind"] != "none"
     valid_w = [case["w"][r] for r in range(N) if case["wvalid"][r]] if weighted else []
-    narrow_pair = case.get("compact") and weighted and kind != "covariance" and rng.random() < 0.7
+    narrow_pair = case.get("compact") and weighted and rng.random() < 0.7
     # facts
     if case["ftype"] != "datetime":
         can_int = N > 0 and _integral(valid_vals) and (case["fform"] in ("pair", "plain") or allvalid)
@@ -198,7 +198,7 @@ def choose_forms(rng, case):
     if weighted:
         if "w_dtype" not in F and rng.random() < 0.4:
             opts = []
-            if kind != "covariance" and N > 0 and _integral(valid_w) and (case["wkind"] == "pair" or all(case["wvalid"])):
+            if N > 0 and _integral(valid_w) and (case["wkind"] == "pair" or all(case["wvalid"])):
                 opts += formlib.int_dtypes_holding([int(x) for x in valid_w] or [0])
             if _f32_exact(np, valid_w):
                 opts += ["float32"]
@@ -211,7 +211,7 @@ def choose_forms(rng, case):
     F["dim_layouts"] = [rng.choice(LAYOUTS_1D) if rng.random() < 0.3 else "c" for _ in case["dims"]]
     # scalars
     if rng.random() < 0.3:
-        F["shape_form"] = rng.choice(["int64", "int32", "int16", "int8", "intp"])
+        F["shape_form"] = rng.choice(["int64", "int32", "int8", "intp", "uint8", "uint8", "uint16", "uint32", "uint64"])
     if kind == "quantile" and rng.random() < 0.4:
         opts = ["float64", "array0d"]
         if float(np.float32(case["p"])) == case["p"]:
@@ -714,10 +714,9 @@ def run(ctx):
                 "(when exact) / every integer dtype that holds the values (about 15 % 'compact integer' cases: scores 0..200 with integer "
                 "weights 1..5, mostly handed over as uint8 x uint8 / int8 / int16 with products beyond the dtype), C / Fortran / "
                 "transposed / strided / negative-stride / read-only arrays and lists, (N,) vs (N,1) facts (stddev, quantile), dimension "
-                "arrays in every integer dtype and layout, interacting_shape and probability as NumPy scalars; NOT generated because the "
-                "unchanged code does not take them: integer-dtype weights for covariance and interacting_shape as NumPy unsigned scalars "
-                "(both written up as FORM FINDINGS in notes/xstats.md), interacting_shape as a list, (N,1) weights, (N,1) facts for "
-                "min/max, datetime64 units other than [s]; "
+                "arrays in every integer dtype and layout, interacting_shape (signed AND unsigned NumPy scalars, F25) and probability as NumPy "
+                "scalars, integer-dtype weight arrays and int lists for every weighted statistic incl. covariance (F26); NOT generated "
+                "(outside the quantifier): interacting_shape as a list, (N,1) weights, (N,1) facts for min/max, datetime64 units other than [s]; "
                 "plus a 'huge' stream judged by the model-free oracle ONLY (no Coq literal; counted in huge_cases_oracle_only): per round "
                 "(1 quick, 3 thorough) nine cases with N in 65 537..150 000 rows (more than any 65536-row block), 0-2 dimensions of "
                 "2-4 categories, 2-5 missing rows of which one lies in the first 65536-row block and one beyond it: min/max under "
